@@ -64,6 +64,8 @@ class DoseFilter(Contract):
         cl = [("every_image_is_filtered_in_fourier_space_with_one_real_gain", z3.BoolVal(flt is not None and len(flt["gains"]) == 1 and flt["source_elem"].t.eq(inp["orig"])))]
         if flt is None or len(flt["gains"]) != 1:
             return cl
+        roll = flt.get("spectrum_roll")
+        cl.append(("spectrum_is_back_in_natural_layout_at_the_inverse_transform", z3.And(*[r == 0 for r in roll]) if roll else z3.BoolVal(True), ("local",)))
         G = flt["gains"][0]
         hy = [V(0) >= 0, V(0) < n.t, V(1) >= 0, V(1) < h.t, V(2) >= 0, V(2) < w.t]
         cl.append(("all_images_and_all_frequencies_covered", flt["cond"], (), hy))
